@@ -6,6 +6,7 @@ import (
 	"bytes"
 	"crypto/ecdsa"
 	"encoding/hex"
+	"encoding/json"
 	"errors"
 	"fmt"
 	"math/big"
@@ -52,6 +53,17 @@ import (
 // reported deployment call data is the expected string, a proper prefix of it, an extension of it,
 // the bytecode followed by other arguments, or an edit.  c07Directed walks through these boundary
 // classes deterministically; the random cases mix them with everything else.
+//
+// The expected call data is BUILT, at attestation time, with the ABI of the compass saved LAST
+// (GetLastCompassContract) - not with the one active on the chain the message was relayed on - and,
+// for a compass upload, with the message's own ABI and constructor input.  Histories therefore
+// include governance saving a newer compass while a message is in flight (saveCompass) whose ABI
+// lacks the delivery method, declares it with another parameter list, does not parse, or only
+// differs in ways that do not change the encoding (c07AbiVariants), and upload messages whose ABI
+// or constructor input is unusable.  While the encoding cannot be built there is nothing a
+// transaction's call data could be equal to: nothing may be accepted.  The op stream tells the model
+// what the latest compass ABI declares (op `compass`, from the keeper state) and whether an upload's
+// constructor input is usable (last token of its `msg` line).
 
 const c07Chain = "c07"
 
@@ -71,6 +83,8 @@ type c07Env struct {
 	lines   []string
 	silent  bool     // do not write op lines (the env is driven from another property's test)
 	panics  []string // op histories of attestations that panicked
+	caps    string   // what the model was last told about the latest compass ABI (op `compass`)
+	capsOf  map[string]c07Caps
 }
 
 func (e *c07Env) op(line, out string) {
@@ -115,6 +129,12 @@ func newC07EnvOpt(t *testing.T, r *Rec, seed int64, silent bool) *c07Env {
 		t: t, r: r, fa: fa, abi: a, abiJSON: abiJSON, chainID: big.NewInt(4242), key: key,
 		queue: consensustypes.Queue(evmtypes.ConsensusTurnstoneMessage, "evm", c07Chain),
 		known: map[uint64]bool{}, usedTx: map[string]uint64{}, fxSeen: map[uint64]bool{}, silent: silent,
+		caps: c07Caps{true, [4]bool{true, true, true, true}}.String(), capsOf: map[string]c07Caps{},
+	}
+	for i, m := range c07Methods {
+		if got := a.Methods[m].Sig; got != c07MethodSigs[i] {
+			t.Fatalf("compass ABI of the repository declares %s, the model encodes %s", got, c07MethodSigs[i])
+		}
 	}
 	e.op("reset", "ok")
 	return e
@@ -122,7 +142,62 @@ func newC07EnvOpt(t *testing.T, r *Rec, seed int64, silent bool) *c07Env {
 
 // ---------- reading keeper state ----------
 
+// c07Methods: the delivery methods of the compass, in the order of the `compass` op; c07MethodSigs:
+// the signatures the model's encoder implements (the #guard lines of Model/Attest.lean).
+var c07Methods = []string{"update_valset", "submit_logic_call", "deploy_contract", "compass_update_batch"}
+
+const c07ConsensusTy = "((address[],uint256[],uint256),(uint256,uint256,uint256)[])"
+
+var c07MethodSigs = []string{
+	"update_valset(" + c07ConsensusTy + ",(address[],uint256[],uint256),address,uint256)",
+	"submit_logic_call(" + c07ConsensusTy + ",(address,bytes),(uint256,uint256,uint256,bytes32),uint256,uint256,address)",
+	"deploy_contract(" + c07ConsensusTy + ",address,bytes,(uint256,uint256,uint256,bytes32),uint256,uint256,address)",
+	"compass_update_batch(" + c07ConsensusTy + ",(address,bytes)[],uint256,uint256,address)",
+}
+
+func c07MethodOf(kind string) int {
+	for i, k := range []string{"uv", "slc", "usc", "ch"} {
+		if k == kind {
+			return i
+		}
+	}
+	return -1
+}
+
+// c07Caps is what an ABI text offers the verifier: does it parse, and which delivery methods does it
+// declare with exactly the parameter list of the repository's compass.
+type c07Caps struct {
+	parses bool
+	method [4]bool
+}
+
+func (c c07Caps) String() string {
+	out := []string{c07B(c.parses)}
+	for _, m := range c.method {
+		out = append(out, c07B(m))
+	}
+	return strings.Join(out, " ")
+}
+
+func (e *c07Env) capsOfABI(abiJSON string) c07Caps {
+	if c, ok := e.capsOf[abiJSON]; ok {
+		return c
+	}
+	var c c07Caps
+	if parsed, err := abi.JSON(strings.NewReader(abiJSON)); err == nil {
+		c.parses = true
+		for i, m := range c07Methods {
+			decl, ok := parsed.Methods[m]
+			c.method[i] = ok && decl.Sig == c07MethodSigs[i]
+		}
+	}
+	e.capsOf[abiJSON] = c
+	return c
+}
+
 type c07Obs struct {
+	latest   string // ABI text of the compass saved last (GetLastCompassContract)
+	caps     c07Caps
 	active   uint64
 	deps     map[uint64]string // contract id -> i|w
 	snapCnt  map[uint64]int    // snapshot id -> number of times the chain is listed
@@ -142,6 +217,12 @@ func (e *c07Env) observe(ctx sdk.Context) c07Obs {
 		e.t.Fatal(err)
 	}
 	o.active = ci.ActiveSmartContractID
+	last, err := a.EvmKeeper.GetLastCompassContract(ctx)
+	if err != nil {
+		e.t.Fatal(err)
+	}
+	o.latest = last.GetAbiJSON()
+	o.caps = e.capsOfABI(o.latest)
 	ds, err := a.EvmKeeper.AllSmartContractsDeployments(ctx)
 	if err != nil {
 		e.t.Fatal(err)
@@ -253,6 +334,35 @@ func (o c07Obs) uactStr() string {
 // chainLine emits the model's view of the keeper state the action attesters read and write.
 func (e *c07Env) chainLine(o c07Obs) {
 	e.op(fmt.Sprintf("chain %s %d %s %s %d %s 1 %s", o.depsStr(), o.active, o.liveStr(), u64List(o.snaps), o.cur, u64List(sortedU64(o.userDeps)), o.uactStr()), "ok")
+	if c := o.caps.String(); c != e.caps {
+		e.op("compass "+c, "ok")
+		e.caps = c
+	}
+}
+
+// c07UpOk: can the deployment call data of an upload message be built at all - its own ABI parses and
+// its constructor input, when it has one, unpacks against that ABI's constructor (and packs again)?
+func c07UpOk(t *testing.T, u *evmtypes.UploadSmartContract) bool {
+	parsed, err := abi.JSON(strings.NewReader(u.GetAbi()))
+	if err != nil {
+		return false
+	}
+	if len(u.GetConstructorInput()) == 0 {
+		return true
+	}
+	vals, err := parsed.Constructor.Inputs.Unpack(u.GetConstructorInput())
+	if err != nil {
+		return false
+	}
+	again, err := parsed.Pack("", vals...)
+	if err != nil {
+		return false
+	}
+	if !bytes.Equal(again, u.GetConstructorInput()) {
+		// the model takes bytecode ++ constructor input as the expected string
+		t.Fatalf("generator: constructor input that is not its own canonical packing")
+	}
+	return true
 }
 
 func c07B(b bool) string {
@@ -340,7 +450,7 @@ func (e *c07Env) register(ctx sdk.Context, id uint64) *c07Stored {
 		cid = fmt.Sprint(a.CompassHandover.Id)
 	case *evmtypes.Message_UploadSmartContract:
 		u := a.UploadSmartContract
-		line = fmt.Sprintf("%s %d up %s %s %d %d %s %s", head, u.Id, c05X([]byte(m.TurnstoneID)), c05X([]byte(m.AssigneeRemoteAddress)), id, s.q.GetGasEstimate(), c05X(u.Bytecode), c05X(u.ConstructorInput))
+		line = fmt.Sprintf("%s %d up %s %s %d %d %s %s %s", head, u.Id, c05X([]byte(m.TurnstoneID)), c05X([]byte(m.AssigneeRemoteAddress)), id, s.q.GetGasEstimate(), c05X(u.Bytecode), c05X(u.ConstructorInput), c07B(c07UpOk(e.t, u)))
 	}
 	if line == "" {
 		line = fmt.Sprintf("%s %s %s", head, cid, strings.TrimPrefix(cm.line(), "sb "))
@@ -838,6 +948,14 @@ type c07Force struct {
 	// one is presented, unused, as proof of delivery of the second (the compass method update_valset
 	// takes no message id, so the call data cannot tell the twins apart)
 	twinFirst bool
+	// the latest compass: before the attestation governance saves a newer compass whose ABI is this
+	// variant (c07AbiVariants) of the repository's, applied to the message's own delivery method or
+	// (abiOther) to another one
+	abiVariant string
+	abiOther   bool
+	chVariant  string // up: the same, for the handover message the accepted upload schedules
+	junk       bool   // the reported transaction carries call data that has nothing to do with the message
+	noSigs     bool   // no validator has signed the message
 }
 
 func (f *c07Force) txClass() string {
@@ -956,7 +1074,10 @@ func (e *c07Env) buildTx(s *c07Stored, f *c07Force) *c07Tx {
 		if err != nil {
 			e.t.Fatalf("pack %s: %v", ca.method, err)
 		}
-		if f == nil {
+		if (f == nil && r.Intn(24) == 0) || (f != nil && f.junk) {
+			data = append([]byte{0xde, 0xad, 0xbe, 0xef}, c05Bytes(e.r, r.Intn(96))...)
+			exact, what = false, "raw:junk"
+		} else if f == nil {
 			switch r.Intn(16) {
 			case 0:
 				data[4+r.Intn(len(data)-4)] ^= byte(1 + r.Intn(255))
@@ -1341,7 +1462,7 @@ func (e *c07Env) newUSC(ctx sdk.Context) (uint64, error) {
 
 // newUP saves a new compass and lets the keeper schedule its deployment; returns the id of the
 // UploadSmartContract message (0 when the keeper did not schedule one).  ctor: regular (what
-// deploySmartContractToChain packed) | other | empty.
+// deploySmartContractToChain packed) | other | empty | unusable | bad-abi.
 func (e *c07Env) newUP(ctx sdk.Context, ctor string) (uint64, error) {
 	a := e.fa.App()
 	before := e.observe(ctx)
@@ -1368,8 +1489,19 @@ func (e *c07Env) newUP(ctx sdk.Context, ctor string) (uint64, error) {
 				// for "just in case" - without constructor input
 				up := s.msg.GetUploadSmartContract()
 				nu := &evmtypes.UploadSmartContract{Id: up.Id, Bytecode: up.Bytecode, Abi: up.Abi}
-				if ctor == "other" {
+				switch ctor {
+				case "other":
 					nu.ConstructorInput = e.ctorInput()
+				case "unusable":
+					// a constructor input that does not unpack: the regular one cut short, or a few bytes
+					in := up.ConstructorInput
+					nu.ConstructorInput = in[:len(in)-1-e.r.Rng.Intn(len(in)-1)]
+				case "bad-abi":
+					// the message's own ABI does not parse (nothing checks it on the way in)
+					nu.Abi = []string{"{not an ABI", "", `[{"type":"constructor","inputs":[{"name":"x","type":"nosuchtype"}]}]`}[e.r.Rng.Intn(3)]
+					if e.r.Rng.Intn(2) == 0 {
+						nu.ConstructorInput = up.ConstructorInput
+					}
 				}
 				if err := a.ConsensusKeeper.DeleteJob(ctx, e.queue, x); err != nil {
 					return 0, err
@@ -1432,7 +1564,7 @@ func (e *c07Env) runCase(name, kind string, f *c07Force) {
 		case "usc":
 			id, err = e.newUSC(ctx)
 		case "up":
-			ctor := []string{"regular", "regular", "regular", "empty", "empty", "other"}[r.Rng.Intn(6)]
+			ctor := []string{"regular", "regular", "regular", "empty", "empty", "other", "unusable", "bad-abi"}[r.Rng.Intn(8)]
 			if f != nil {
 				ctor = f.upCtor
 			}
@@ -1510,6 +1642,30 @@ func c07Directed(t *testing.T, r *Rec) {
 	}
 	// twin update-valsets: the transaction built for the first attests the second
 	run("uv", &c07Force{existing: true, class: "dyn", twinFirst: true})
+	// a newer compass is saved while the message is in flight: every ABI variant x the genuine
+	// transaction and one with unrelated call data; then the variant applied to ANOTHER method, and a
+	// message nobody signed (Pack is never reached)
+	for _, kind := range []string{"uv", "slc", "usc"} {
+		for _, v := range c07AbiVariants {
+			run(kind, &c07Force{existing: true, abiVariant: v})
+			run(kind, &c07Force{existing: true, abiVariant: v, junk: true})
+		}
+		run(kind, &c07Force{existing: true, abiVariant: "missing", abiOther: true})
+		run(kind, &c07Force{existing: true, abiVariant: "kind-change", abiOther: true, junk: true})
+		run(kind, &c07Force{existing: true, abiVariant: "missing", noSigs: true})
+		run(kind, &c07Force{existing: true, abiVariant: "unparsable", noSigs: true})
+	}
+	// ... while the handover of an accepted upload is in flight
+	for _, v := range []string{"missing", "drop-param", "unparsable", "compatible"} {
+		run("up", &c07Force{upCtor: "regular", upData: "exact", chVariant: v})
+		run("up", &c07Force{upCtor: "regular", upData: "exact", chVariant: v, junk: true})
+	}
+	// upload messages whose own ABI / constructor input is unusable
+	for _, ctor := range []string{"unusable", "bad-abi"} {
+		for _, data := range []string{"exact", "bytecode-only", "other-args", "flip", "data-edit"} {
+			run("up", &c07Force{upCtor: ctor, upData: data})
+		}
+	}
 	r.Stat(fmt.Sprintf("directed-cases:%d", n))
 }
 
@@ -1564,6 +1720,9 @@ func (e *c07Env) driveMessage(ctx sdk.Context, id uint64, kind string, caseKey *
 	k := []int{0, 1, 2, 3, 3, 4, 4, 4}[r.Rng.Intn(8)]
 	if f != nil {
 		k = 4
+		if f.noSigs {
+			k = 0
+		}
 	}
 	if err := e.sign(ctx, id, c07Perm(r, k)); err != nil {
 		return fmt.Errorf("sign: %w", err)
@@ -1593,6 +1752,34 @@ func (e *c07Env) driveMessage(ctx sdk.Context, id uint64, kind string, caseKey *
 	tx := e.buildTx(s, f)
 	r.Stat("tx:" + strings.SplitN(tx.what, ":", 2)[0])
 	r.Stat(fmt.Sprintf("receipt:%d", tx.status))
+
+	// 4b. meanwhile governance saves a newer compass: from now on the expected call data is built
+	// with ITS ABI
+	variant, other := "", false
+	switch {
+	case f != nil:
+		variant, other = f.abiVariant, f.abiOther
+	case r.Rng.Intn(6) == 0:
+		variant, other = c07AbiVariants[r.Rng.Intn(len(c07AbiVariants))], r.Rng.Intn(4) == 0
+	}
+	compassChanged := false
+	if variant != "" && !(f != nil && f.twinFirst) {
+		mi := c07MethodOf(kind)
+		if mi < 0 {
+			mi = r.Rng.Intn(len(c07Methods)) // an upload does not use the compass ABI at all
+		} else if other {
+			mi = (mi + 1 + r.Rng.Intn(len(c07Methods)-1)) % len(c07Methods)
+		}
+		compassChanged = e.saveCompass(ctx, c07AbiVariant(e.t, e.abiJSON, variant, c07Methods[mi]), variant)
+		who := "own-method"
+		if other || kind == "up" {
+			who = "other-method"
+		}
+		if compassChanged {
+			e.checkCaps(ctx, s, kind)
+			r.Stat(fmt.Sprintf("latest-compass:%s:%s:%s:buildable=%v", variant, who, kind, e.buildable(ctx, s, kind)))
+		}
+	}
 
 	if f != nil && f.twinFirst && kind == "uv" {
 		// interchangeable messages: the transaction built for message id is presented, unused, for
@@ -1713,8 +1900,12 @@ func (e *c07Env) driveMessage(ctx sdk.Context, id uint64, kind string, caseKey *
 	if grp != nil {
 		winner = fmt.Sprintf("%s/%d", grp.kind, grp.status)
 	}
+	canBuild := e.buildable(ctx, s, kind)
 	class, fx := e.attest(ctx, id, evs, kind)
 	r.Stat("class:" + class)
+	if !canBuild {
+		r.Stat(fmt.Sprintf("encoding-cannot-be-built:%s:%s:%s", kind, strings.SplitN(tx.what, ":", 2)[0], class))
+	}
 	r.Stat("evidence-outcome:" + strings.SplitN(mode, ":success", 2)[0] + ":" + class)
 	*caseKey = fmt.Sprintf("%s/%s/%s/%s/%s/%v", kind, mode, winner, tx.what, class, fx)
 	txWon := grp != nil && grp.kind == "tx" && grp.tx == tx
@@ -1780,7 +1971,7 @@ func (e *c07Env) driveMessage(ctx sdk.Context, id uint64, kind string, caseKey *
 				key := ""
 				var fch *c07Force
 				if f != nil {
-					fch = &c07Force{}
+					fch = &c07Force{abiVariant: f.chVariant, junk: f.chVariant != "" && f.junk}
 				}
 				if err := e.driveMessage(ctx, x, "ch", &key, fch); err != nil {
 					return fmt.Errorf("handover: %w", err)
@@ -1789,8 +1980,179 @@ func (e *c07Env) driveMessage(ctx sdk.Context, id uint64, kind string, caseKey *
 			}
 		}
 	}
+	if compassChanged && (f != nil || r.Rng.Intn(4) != 0) {
+		// a yet newer compass with the regular ABI (otherwise the variant stays the latest one for the
+		// cases that follow)
+		if !e.saveCompass(ctx, e.abiJSON, "regular") {
+			return fmt.Errorf("the keeper refused a compass with the regular ABI")
+		}
+	}
 	e.cleanup(ctx, id)
 	return nil
+}
+
+// c07AbiVariants: how the ABI of a newer compass may differ from the one the in-flight messages
+// were relayed on.  Every variant but the last leaves the verifier unable to build the expected call
+// data of the method's messages (Pack finds no such method / refuses the argument list / there is
+// no ABI); `compatible` changes the text but not the encoding (parameter names, an additional
+// method).
+var c07AbiVariants = []string{"missing", "drop-param", "drop-2", "extra-param", "kind-change", "unparsable", "compatible"}
+
+func c07AbiVariant(t *testing.T, base, variant, method string) string {
+	if variant == "unparsable" {
+		return `[{"type":"function","name":"` + method + `","inputs":[{"name":"x","type":"nosuchtype"}]}]`
+	}
+	var entries []map[string]any
+	if err := json.Unmarshal([]byte(base), &entries); err != nil {
+		t.Fatal(err)
+	}
+	var out []map[string]any
+	found := false
+	for _, en := range entries {
+		if en["type"] != "function" || en["name"] != method {
+			out = append(out, en)
+			continue
+		}
+		found = true
+		ins := en["inputs"].([]any)
+		switch variant {
+		case "missing":
+			continue
+		case "drop-param":
+			ins = ins[:len(ins)-1]
+		case "drop-2": // e.g. the two-parameter update_valset of an older compass
+			ins = ins[:len(ins)-2]
+		case "extra-param":
+			ins = append(ins[:len(ins):len(ins)], map[string]any{"name": "extra", "type": "uint256"})
+		case "kind-change": // the consensus tuple became a number
+			ins = append([]any{map[string]any{"name": "consensus", "type": "uint256"}}, ins[1:]...)
+		case "compatible":
+			var renamed []any
+			for i, in := range ins {
+				cp := map[string]any{}
+				for k, v := range in.(map[string]any) {
+					cp[k] = v
+				}
+				cp["name"] = fmt.Sprintf("arg%d", i)
+				renamed = append(renamed, cp)
+			}
+			ins = renamed
+			out = append(out, map[string]any{"type": "function", "name": "c07_added", "inputs": []any{}, "outputs": []any{}, "stateMutability": "nonpayable"})
+		default:
+			t.Fatalf("c07AbiVariant: %q", variant)
+		}
+		cp := map[string]any{}
+		for k, v := range en {
+			cp[k] = v
+		}
+		cp["inputs"] = ins
+		out = append(out, cp)
+	}
+	if !found {
+		t.Fatalf("c07AbiVariant: the compass ABI has no method %s", method)
+	}
+	bz, err := json.Marshal(out)
+	if err != nil {
+		t.Fatal(err)
+	}
+	return string(bz)
+}
+
+// saveCompass: governance saves a new compass with the given ABI as the latest one - what
+// MsgDeployNewSmartContractProposalV2 does: SaveNewSmartContract + SetAsCompassContract, all or
+// nothing.  SetAsCompassContract looks at the ABI only when it schedules the deployment to a chain,
+// and it schedules none while another deployment is pending there: when the keeper refuses the ABI
+// as it is, the same proposal is tried behind a pending deployment of a regular newer compass.
+// The uploads scheduled on the way are none of this case's business and are withdrawn again.
+func (e *c07Env) saveCompass(parent sdk.Context, abiJSON, what string) bool {
+	a := e.fa.App()
+	try := func(behindPending bool) bool {
+		ctx, write := parent.CacheContext()
+		before := e.observe(ctx)
+		var ids []uint64
+		texts := []string{abiJSON}
+		if behindPending {
+			texts = []string{e.abiJSON, abiJSON}
+		}
+		for _, text := range texts {
+			sc, err := a.EvmKeeper.SaveNewSmartContract(ctx, text, append([]byte{0x60, 0x03}, c05Bytes(e.r, 1+e.r.Rng.Intn(8))...))
+			if err == nil {
+				err = a.EvmKeeper.SetAsCompassContract(ctx, sc)
+			}
+			if err != nil {
+				return false
+			}
+			ids = append(ids, sc.Id)
+		}
+		seen := map[uint64]bool{}
+		for _, x := range before.queue {
+			seen[x] = true
+		}
+		for _, x := range e.observe(ctx).queue {
+			if st := e.load(ctx, x); !seen[x] && st != nil && st.msg.GetUploadSmartContract() != nil {
+				if err := a.ConsensusKeeper.DeleteJob(ctx, e.queue, x); err != nil {
+					e.t.Fatal(err)
+				}
+			}
+		}
+		for _, cid := range ids {
+			if before.deps[cid] == "" {
+				a.EvmKeeper.DeleteSmartContractDeploymentByContractID(ctx, cid, c07Chain)
+			}
+		}
+		write()
+		return true
+	}
+	if try(false) {
+		e.r.Stat("compass-saved:" + what)
+		return true
+	}
+	if try(true) {
+		e.r.Stat("compass-saved-behind-a-pending-deployment:" + what)
+		return true
+	}
+	e.r.Stat("compass-refused-by-the-keeper:" + what)
+	return false
+}
+
+// buildable: can the expected call data of the stored message be built from what the keeper holds
+// now - for an upload from the message itself, otherwise from the ABI of the latest compass (Pack is
+// only reached with at least one signature)?  From the keeper state and the message alone.
+func (e *c07Env) buildable(ctx sdk.Context, s *c07Stored, kind string) bool {
+	if up := s.msg.GetUploadSmartContract(); up != nil {
+		return c07UpOk(e.t, up)
+	}
+	o := e.observe(ctx)
+	cur := e.load(ctx, s.q.GetId())
+	if cur == nil {
+		cur = s
+	}
+	return o.caps.parses && (len(cur.q.GetSignData()) == 0 || o.caps.method[c07MethodOf(kind)])
+}
+
+// checkCaps keeps the generator inside the class the model covers: a delivery method the latest
+// compass declares with the repository's parameter list packs the message's arguments to the same
+// bytes as before, and one it declares differently (or not at all) does not pack them at all.
+func (e *c07Env) checkCaps(ctx sdk.Context, s *c07Stored, kind string) {
+	mi := c07MethodOf(kind)
+	o := e.observe(ctx)
+	if mi < 0 || !o.caps.parses {
+		return
+	}
+	parsed, err := abi.JSON(strings.NewReader(o.latest))
+	if err != nil {
+		e.t.Fatal(err)
+	}
+	ca := e.relayerArgs(s, len(s.q.GetSignData()))
+	got, err := parsed.Pack(ca.method, ca.args...)
+	if (err == nil) != o.caps.method[mi] {
+		e.t.Fatalf("generator: latest compass ABI declares %s as the repository's: %v, but packing gives: %v", ca.method, o.caps.method[mi], err)
+	}
+	if err == nil {
+		if want, err := e.abi.Pack(ca.method, ca.args...); err != nil || !bytes.Equal(want, got) {
+			e.t.Fatalf("generator: the latest compass packs %s to other bytes", ca.method)
+		}
+	}
 }
 
 // twinOf queues a second message with the same content as the stored message s (same action, same
